@@ -658,6 +658,20 @@ def h_first(ax, ip, inst, fid, bi, st, t, fn, args, argpl, dty):
     return ax.option(dty, some=r if v.len.hi > 0 else None, none=v.len.lo == 0), st
 
 
+def h_last(mutable):
+    """`slice.last()` / `slice.last_mut()`: a reference to the element at len - 1 (the same element `slice[slice.len() - 1]` names), None when empty."""
+    def h(ax, ip, inst, fid, bi, st, t, fn, args, argpl, dty):
+        v, place = _vec_place(ip, ax, st, args[0])
+        if v is None:
+            return ip.top_of(dty), st
+        if v.len.hi == 0:
+            return ax.option(dty, some=None, none=True), st
+        lo, hi = max(v.len.lo - 1, 0), v.len.hi - 1
+        r = Rf((place[0], place[1], place[2] + (("e", (lo, hi)),)) if place is not None else None, v.at(lo, hi), mutable)
+        return ax.option(dty, some=r, none=v.len.lo == 0), st
+    return h
+
+
 def h_from_elem(ax, ip, inst, fid, bi, st, t, fn, args, argpl, dty):
     n = _num(ip, ax, st, args[1])
     return Vc(args[0], n if isinstance(n, In) else usize(0, (1 << 63) - 1)), st
@@ -1052,7 +1066,7 @@ PATH_AXIOMS = [(re.compile(p), h) for p, h in [
     (r"^alloc::vec::Vec::<T, A>::is_empty$", h_vec_is_empty), (r"^core::slice::<impl \[T\]>::is_empty$", h_vec_is_empty),
     (r"^alloc::vec::Vec::<T, A>::push$", h_vec_push), (r"^alloc::vec::Vec::<T, A>::pop$", h_vec_pop),
     (r"^alloc::vec::Vec::<T, A>::with_capacity$", h_vec_new),
-    (r"^core::slice::<impl \[T\]>::first$", h_first), (r"^alloc::vec::from_elem$", h_from_elem),
+    (r"^core::slice::<impl \[T\]>::first$", h_first), (r"^core::slice::<impl \[T\]>::last$", h_last(False)), (r"^core::slice::<impl \[T\]>::last_mut$", h_last(True)), (r"^alloc::vec::from_elem$", h_from_elem),
     (r"^alloc::vec::Vec::<T, A>::as_slice$", h_as_slice), (r"^alloc::vec::Vec::<T, A>::as_mut_slice$", h_as_slice),
     (r"^alloc::vec::Vec::<T, A>::into_boxed_slice$", h_into_boxed),
     (r"^core::slice::<impl \[T\]>::iter$", h_iter(False)), (r"^core::slice::<impl \[T\]>::iter_mut$", h_iter(True)),
